@@ -4,7 +4,9 @@ import Knut.Generated.Census
 The concurrency part of the census of `harness/facts_c06.go` (see `FactsAgree/C06.lean` for the walk and the fingerprints):
 `go` — go statements and `x.Go(…)` of a pool / errgroup (with the receiver's type); `cpr` — calls of the functions of
 lib/common/cpr from other packages; `chanrange`, `select` (its cases: `recv`, `recv:Done`, `send`, `default`), `recv`, `send` — channel
-operations, each with the innermost enclosing loop or closure; `lock` — the sequence of Lock / RLock / Unlock / RUnlock calls of a function.
+operations, each with the innermost enclosing loop or closure; `lock` — the sequence of Lock / RLock / Unlock / RUnlock calls of a function and
+the shape of its body's top-level statements in the tokens of `harness/facts_c19.go` (lookup, lookup-return, return-if-found, check, write, return …:
+where the reads and writes stand relative to the lock operations).
 
 The structure the models assume (Model/Pipeline for `cpr.Seq`, Model/Registry for the registries, the loader as a fan-in whose arrival
 order is arbitrary: C06_journal_deterministic, C05) is this list: a new goroutine, a new producer on a shared channel, a `select` with one
@@ -61,9 +63,9 @@ theorem census_conc_lib_common_cpr_cpr_go : Census.conc_lib_common_cpr_cpr_go = 
 /-- `lib/common/cpr/hook_verif.go` -/
 def conc_lib_common_cpr_hook_verif_go : List Site := [
   -- verif build only: the perturbation's random source
-  ("lib/common/cpr/hook_verif.go", "hookNext", "lock", "-", "Lock defer Unlock"),
+  ("lib/common/cpr/hook_verif.go", "hookNext", "lock", "-", "Lock defer Unlock; shape: Lock deferUnlock other other other other return"),
   -- verif build only: the trace file
-  ("lib/common/cpr/hook_verif.go", "hookTrace", "lock", "-", "Lock defer Unlock")
+  ("lib/common/cpr/hook_verif.go", "hookTrace", "lock", "-", "Lock defer Unlock; shape: check Lock deferUnlock other")
 ]
 theorem census_conc_lib_common_cpr_hook_verif_go : Census.conc_lib_common_cpr_hook_verif_go = conc_lib_common_cpr_hook_verif_go := rfl
 
@@ -91,22 +93,22 @@ theorem census_conc_lib_journal_journal_go : Census.conc_lib_journal_journal_go 
 /-- `lib/model/account/registry.go` -/
 def conc_lib_model_account_registry_go : List Site := [
   -- fast path under the read lock (FactsAgree/C19.account_get_fast_path)
-  ("lib/model/account/registry.go", "Registry.Get", "lock", "-", "RLock RUnlock"),
+  ("lib/model/account/registry.go", "Registry.Get", "lock", "-", "RLock RUnlock; shape: RLock lookup RUnlock return-if-found return getOrCreatePath"),
   -- fast path under the read lock
-  ("lib/model/account/registry.go", "Registry.GetPath", "lock", "-", "RLock RUnlock"),
+  ("lib/model/account/registry.go", "Registry.GetPath", "lock", "-", "RLock RUnlock; shape: RLock lookup RUnlock return-if-found return getOrCreatePath"),
   -- read, then write under the write lock
-  ("lib/model/account/registry.go", "Registry.SwapType", "lock", "-", "RLock RUnlock Lock defer Unlock"),
+  ("lib/model/account/registry.go", "Registry.SwapType", "lock", "-", "RLock RUnlock Lock defer Unlock; shape: RLock lookup RUnlock return-if-found other other lookup check Lock deferUnlock write return"),
   -- looks the path up again under the write lock (FactsAgree/C19.account_getOrCreate_rechecks)
-  ("lib/model/account/registry.go", "Registry.getOrCreatePath", "lock", "-", "Lock defer Unlock")
+  ("lib/model/account/registry.go", "Registry.getOrCreatePath", "lock", "-", "Lock defer Unlock; shape: Lock deferUnlock lookup-return check other lookup check other other write return")
 ]
 theorem census_conc_lib_model_account_registry_go : Census.conc_lib_model_account_registry_go = conc_lib_model_account_registry_go := rfl
 
 /-- `lib/model/commodity/registry.go` -/
 def conc_lib_model_commodity_registry_go : List Site := [
   -- read lock, then write lock with a second lookup (FactsAgree/C19.commodity_get_rechecks; seed C06-c removes it)
-  ("lib/model/commodity/registry.go", "Registry.Get", "lock", "-", "RLock RUnlock Lock defer Unlock"),
+  ("lib/model/commodity/registry.go", "Registry.Get", "lock", "-", "RLock RUnlock Lock defer Unlock; shape: RLock lookup RUnlock return-if-found Lock deferUnlock lookup-return check other write return"),
   -- write under the write lock
-  ("lib/model/commodity/registry.go", "Registry.TagCurrency", "lock", "-", "Lock defer Unlock")
+  ("lib/model/commodity/registry.go", "Registry.TagCurrency", "lock", "-", "Lock defer Unlock; shape: lookup check Lock deferUnlock other return")
 ]
 theorem census_conc_lib_model_commodity_registry_go : Census.conc_lib_model_commodity_registry_go = conc_lib_model_commodity_registry_go := rfl
 
